@@ -5,7 +5,7 @@ CONSTANT MaxLabels = 1
 CONSTANT MaxCount = 1
 CONSTANT MaxO2 = 0
 CONSTANT O2Twice = TRUE
-CONSTANT StackFlagsFull = FALSE
+CONSTANT StackFlagsFull = "few"
 INVARIANT MergeMatches
 INVARIANT OneClass
 INVARIANT ClassImpliedInv
